@@ -25,7 +25,7 @@ CHECK = {
         quick=dict(runs=64000, wall=80), thorough=dict(runs=1500000, wall=1100),
         rule="one evaluation = one seeded run of one arm. seq/fault-free and seq/faulty: a sequence of 30-90 circuit-map calls, channel events (sign, revoke, link flap, close pending/fully, resolution messages) and restarts issued by one client; the reference model is compared with every return value and with the complete lookup view (LookupCircuit over all incoming keys, LookupOpenCircuit over all outgoing keys, NumPending, NumOpen, closing set probed with FailCircuit) after every call; faulty adds FailWrite/CrashBefore/CrashAfter on the write of any call and on the 1st-4th write of NewCircuitMap. race: 2-3 client goroutines interleaved at every transaction entry, before every mutex acquisition inside circuit_map.go and at call return (<= 36 calls after a model-checked prelude), linearizability of the invoke/return history checked with porcupine, exact durable state after a clean drain or a crash at any scheduling point, restart oracle. enum: one of the 48 interleavings of CloseCircuit / FailCircuit / DeleteCircuits(memory, disk) on one circuit x 4 starting situations. non-trivial = (seq/fault-free) a restart with pending circuits and >= 3 calls after it / (seq/faulty) a fault fired and a call completed after it / (race) >= 2 calls issued while another was in flight / (enum) always; distinct = distinct event-trace hash",
         states_measure="distinct (pending, open, closing, restored-half-open counts, epoch mod 3, channel statuses) tuples; race: (pending, open, calls in flight, history length/4)",
-        expected_probes=["probe_parked_before_lock", "probe_commit_fail_loaded_halfopen", "probe_commit_drop_keystone", "probe_commit_drop_in_mailbox",
+        expected_probes=["probe_zero_conf_channel_confirmed", "probe_parked_before_lock", "probe_commit_fail_loaded_halfopen", "probe_commit_drop_keystone", "probe_commit_drop_in_mailbox",
                          "probe_duplicate_inside_batch", "probe_duplicate_keystone_rejected", "probe_open_unknown_rejected",
                          "probe_second_response_rejected", "probe_trim_rolled_back", "probe_restart_rolled_back_uncommitted",
                          "probe_purged_closed_incoming", "probe_purged_closed_outgoing", "probe_kept_for_resolution_message",
